@@ -42,8 +42,17 @@ Step ==
       ELSE IF c.st = "mixed"
       THEN /\ nrej' = nrej + 1 /\ UNCHANGED <<nok, nexcl, ncells, nvac>>
            /\ Emit("REJECT", [id |-> c.id, pat |-> c.pat, ast |-> c.ast, ng |-> c.ng, what |-> "the four builds do not all compile / all fail", got |-> <<>>])
-      ELSE IF c.st # "ok" \/ (Excl = "F1" /\ Excluded_F1(c.ast))
+      ELSE IF c.st # "ok"
       THEN nexcl' = nexcl + 1 /\ UNCHANGED <<nok, nrej, ncells, nvac>>
+      ELSE IF Excl = "F1" /\ Excluded_F1(c.ast)
+      THEN \* class of finding F1: no comparison with RefSem, but the property itself -- the builder option behaves like the (?i) prefix,
+           \* and an unset option like no option -- is still judged on the recorded rows
+           /\ nexcl' = nexcl + 1 /\ UNCHANGED <<nok, ncells, nvac>>
+           /\ IF SetOf(c.A) = SetOf(c.B) /\ SetOf(c.C) = SetOf(c.D) THEN UNCHANGED nrej
+              ELSE /\ nrej' = nrej + 1
+                   /\ Emit("REJECT", [id |-> c.id, pat |-> c.pat, ast |-> c.ast, ng |-> c.ng, what |-> IF SetOf(c.A) # SetOf(c.B) THEN "A vs B" ELSE "C vs D",
+                                      got |-> IF SetOf(c.A) # SetOf(c.B) THEN <<Pick(SetOf(c.B) \ SetOf(c.A)), Pick(SetOf(c.A) \ SetOf(c.B))>>
+                                              ELSE <<Pick(SetOf(c.D) \ SetOf(c.C)), Pick(SetOf(c.C) \ SetOf(c.D))>>])
       ELSE LET ei == TLCEval(Exp(ApplyCasei(c.ast), c.ng))   es == TLCEval(Exp(c.ast, c.ng))
                bad == {x \in {<<"A", SetOf(c.A), ei>>, <<"B", SetOf(c.B), ei>>, <<"C", SetOf(c.C), es>>, <<"D", SetOf(c.D), es>>} : x[2] # x[3]}
            IN /\ ncells' = ncells + Cardinality(ei) + Cardinality(es) /\ UNCHANGED <<nexcl, nvac>>
